@@ -19,6 +19,8 @@ import (
 // The goja model's "while (true) {}" blocks until Runtime.Interrupt is called on THAT runtime; the
 // deadline of context.WithTimeout may pass at any scheduling point (environment action).
 func VerifC11() {
+	// the watcher goroutine may run before the statement after its `go` (e.g. when the context is already done)
+	verif.PreemptAtGo(true)
 	looping := verif.Choose("looping", 2) == 1
 	var s *script
 	if looping {
@@ -67,6 +69,7 @@ func VerifC11() {
 
 // VerifC11Step: the timeout error is routed like any other action error.
 func VerifC11Step() {
+	verif.PreemptAtGo(true)
 	verif.MapOrderInsertion(true)
 	src := stmt(opLoop, 0)
 	spec := &core.Spec{
